@@ -46,6 +46,24 @@ func litNode(c Case) (*recipe.Node, *recipe.Builder) {
 }
 
 func check(c Case) error {
+	// one case in eight is judged in the environment of another machine (32-bit target, other OS, no Go
+	// installation, other locale): a literal is a function of the value handed to Lit
+	h := 0
+	for _, ch := range c.Val.T + string(c.Val.V) {
+		h = h*31 + int(ch)
+	}
+	if h%8 == 3 {
+		var err error
+		hx.ForeignEnv(func() { err = check0(c) })
+		if err != nil {
+			return fmt.Errorf("with GOARCH=386 GOOS=plan9 GOROOT=/nonexistent/go LANG=tr_TR.UTF-8 ... in the environment: %v", err)
+		}
+		return nil
+	}
+	return check0(c)
+}
+
+func check0(c Case) error {
 	v := c.Val.Go()
 	lit, b := litNode(c)
 	text, err := litx.RenderStmt(lit, b)
